@@ -385,6 +385,12 @@ def scalar_values(ctx):
 
 # ------------------------------------------------------------------------------------------------ the check
 def run(ctx):
+    # ---- shape half for broadcasting / reduction / concat ops (work package E2: Props/C10_shapes.v) ------------------
+    try:
+        from checks import ops_algebra
+        ops_algebra.run_part(ctx, as_pid="C10")
+    except ModuleNotFoundError as ex:
+        ctx.notes.append("algebra part not available: %s" % ex)
     # ---- T: regenerate and build ---------------------------------------------------------------------------------
     res = py2coq.run(["dtype"])
     info = None
